@@ -209,11 +209,25 @@ def _cli_one(ctx, draft, schema, i, sp, ip, want):
     ctx.case([draft, schema, i, "cli"])
     ctx.count("compared_through_cli")
     out, err = io.StringIO(), io.StringIO()
+    # a program may have set the interpreter's int<->str conversion limit to suit its numbers (0 = no limit): an in-process
+    # command-line run leaves it where it was, so that the numeric keywords go on seeing what they saw
+    import sys
+    before = sys.get_int_max_str_digits()
+    mine = (0, 100000, before)[ctx.counters.get("compared_through_cli", 0) % 3]
+    sys.set_int_max_str_digits(mine)
     try:
-        code = cli.run(cli.parse_args(["-V", "jsonschema.Draft%dValidator" % draft, "-i", ip, sp]), stdout=out, stderr=err)
-    except BaseException as e:
-        ctx.violation("raised", case, "command line: %s: %s" % (type(e).__name__, str(e)[:120]))
-        return
+        try:
+            code = cli.run(cli.parse_args(["-V", "jsonschema.Draft%dValidator" % draft, "-i", ip, sp]), stdout=out, stderr=err)
+        except BaseException as e:
+            ctx.violation("raised", case, "command line: %s: %s" % (type(e).__name__, str(e)[:120]))
+            return
+        after = sys.get_int_max_str_digits()
+        ctx.count("cli_runs_under_a_conversion_limit_of_the_callers")
+        if after != mine:
+            ctx.violation("cli", dict(case, int_max_str_digits=mine), "the caller's int/str conversion limit was %d before the command-line run and is %d after" % (mine, after))
+            return
+    finally:
+        sys.set_int_max_str_digits(before)
     if (code == 0) != want:
         ctx.violation("cli", case, "command line exit status %r (stderr %r), exact arithmetic says %s" % (
             code, err.getvalue()[:80], "valid" if want else "invalid"))
